@@ -504,6 +504,9 @@ func EVAL(ctx context.Context, ast MalType, env EnvType) (res MalType, e error) 
 			switch first(last) {
 			case "catch":
 				finallyDo = nil
+				if len(last.(List).Val) < 3 {
+					return nil, lisperror.NewLispError(errors.New("catch must have 2 arguments at least"), ast)
+				}
 				catchBind = last.(List).Val[1]
 				catchDo = List{Val: last.(List).Val[2:]}
 				tryDo = List{Val: lst[1 : len(lst)-1]}
@@ -514,6 +517,9 @@ func EVAL(ctx context.Context, ast MalType, env EnvType) (res MalType, e error) 
 				finallyDo = List{Val: last.(List).Val[1:]}
 				switch first(prelast) {
 				case "catch":
+					if len(prelast.(List).Val) < 3 {
+						return nil, lisperror.NewLispError(errors.New("catch must have 2 arguments at least"), ast)
+					}
 					catchBind = prelast.(List).Val[1]
 					catchDo = List{Val: prelast.(List).Val[2:]}
 					tryDo = List{Val: lst[1 : len(lst)-2]}
@@ -642,7 +648,7 @@ func EVAL(ctx context.Context, ast MalType, env EnvType) (res MalType, e error) 
 }
 
 func first(list MalType) string {
-	if list != nil && Q[List](list) && Q[Symbol](list.(List).Val[0]) {
+	if list != nil && Q[List](list) && len(list.(List).Val) > 0 && Q[Symbol](list.(List).Val[0]) {
 		return list.(List).Val[0].(Symbol).Val
 	}
 	return ""
